@@ -64,6 +64,10 @@ OPAQUE = ("hypot", "f", "abs", "heaviside", "Heaviside")
 def refusal(route, text, exc, jit):
     """loud refusals that are errors, not mistranslations (DESIGN.md C11); None = unexpected"""
     name, msg = type(exc).__name__, str(exc)
+    if name == "RuntimeError" and "_Dummy_" in msg and "not defined in expression signature" in msg:
+        # sympy 1.14: simplify(-sinh(a - 2*sinh(a))/2 + sinh(a + 2*sinh(a))/2) = I*sin(2*_Dummy*sinh(a))*cosh(a) leaks a Dummy
+        # (reached through the second simplify of `derivatives`); py-pde then rejects the unknown symbol loudly
+        return "sympy.simplify leaks a Dummy symbol (hyperbolic rewriting); rejected as undefined argument (RuntimeError)"
     if (name == "NameError" or (jit and name == "TypingError")) and ("'re'" in msg or "'im'" in msg) and _has(text, "abs"):
         # sympy symbols are complex by default: simplify turns Abs(exp(a)) into exp(re(a)); the generated
         # code calls `re`, which the numpy namespace does not have.  Loud (NameError at call time).
